@@ -82,6 +82,7 @@ struct PipeCfg
   bool want_log = false;
   long in_fail_at = -1; // >= 0: reads of the input stream at or beyond this offset fail with EIO
   bool in_fail_once = false; // ... only the first of them (transient error; stdio's error flag stays set)
+  bool null_input = false; // the operation is given a NULL input stream (a file that could not be opened)
   long out_fail_at = -1; // >= 0: the output stream takes this many bytes in all, then writes fail (device full)
   long fail_new = -2; // >= 0: the n-th allocation of the code under test fails once (std::bad_alloc); -1: count only; -2: off
 };
@@ -117,7 +118,8 @@ bytes hash_string(int alg, const bytes &m);
 // the same hasher object first digests `decoy`, then `m` (the object must reset itself between messages)
 bytes hash_string_reuse(int alg, const bytes &decoy, const bytes &m);
 // through filebuffer64 on a memory file positioned at `pos`, optionally with a 64-byte prefix block
-bytes hash_filebuf(int alg, const bytes &file, size_t pos, int refill_units, const bytes *prefix64);
+// decoy: a second filebuffer64 over these bytes is alive while `file` is hashed
+bytes hash_filebuf(int alg, const bytes &file, size_t pos, int refill_units, const bytes *prefix64, const bytes *decoy = nullptr);
 // synthetic stream of `len` bytes (byte i = pattern(i)) through a buffer64 subclass, no file involved
 bytes hash_synth(int alg, uint64_t len, uint32_t pat);
 // the same synthetic message materialised in memory and given to the in-memory entry point (len < 2^32)
